@@ -189,7 +189,10 @@ def check_aim(ctx):
         raise AnalysisError('AIM.run: adaptive while loop not found')
     loop = loops[0]
     guard = None
+    from ..srcmodel import canon_compare
     for s in loop.body:
+        if isinstance(s, ast.If) and isinstance(s.test, ast.Compare):
+            s.test = canon_compare(s.test)          # `K*charge > rho - ledger` is the same guard
         if isinstance(s, ast.If) and isinstance(s.test, ast.Compare) and len(s.test.ops) == 1 and \
                 isinstance(s.test.ops[0], (ast.Lt, ast.LtE)) and isinstance(s.test.left, ast.BinOp) and \
                 isinstance(s.test.left.op, ast.Sub) and U(s.test.left.left) == 'self.rho' and isinstance(s.test.left.right, ast.Name):
